@@ -388,6 +388,7 @@ type vhandler struct {
 	Listers  []*vlister // every lister handed out
 	FailOpen map[string]bool
 	Ctxs     []func() error
+	PutOnly  bool // the FilePut handler does not implement OpenFileWriter
 }
 
 func newVHandler(split bool) *vhandler {
@@ -396,7 +397,18 @@ func newVHandler(split bool) *vhandler {
 
 func (h *vhandler) log(f string, a ...any) { h.Log = append(h.Log, fmt.Sprintf(f, a...)) }
 
-func (h *vhandler) handlers() Handlers { return Handlers{h, h, h, h} }
+func (h *vhandler) handlers() Handlers {
+	if h.PutOnly {
+		return Handlers{h, vhandlerPut{h}, h, h}
+	}
+	return Handlers{h, h, h, h}
+}
+
+// vhandlerPut is the vhandler without its OpenFile method: the FilePut handler is then a plain FileWriter and handles
+// opened for reading and writing are served by the package's write-only wrapper (method "Put") instead of fileputget.
+type vhandlerPut struct{ h *vhandler }
+
+func (p vhandlerPut) Filewrite(r *Request) (io.WriterAt, error) { return p.h.Filewrite(r) }
 
 func (h *vhandler) file(name string, create bool) *vfile {
 	f := h.files[name]
